@@ -270,6 +270,8 @@ def oracle(ctx):
             res.oracle_failures.append(dict(op=op, input=text, impl_output=f'delta at {pos}: -{removed} +{added}; argv {na}',
                                             oracle_expectation=f'adding {key} inserts exactly {want} and changes nothing else'))
             continue
+        if not want:
+            continue   # nothing is inserted (e.g. optional devices that do not exist): no position to speak of
         # position claims
         sub = {'container': 'run', 'volume': 'volume', 'network': 'network', 'pod': 'pod', 'kube': 'kube', 'image': 'image', 'build': 'build'}[ty]
         si = na.index(sub) if sub in na else -1
